@@ -6,12 +6,13 @@ SPLIT = {("Wire", "set:pins"), ("Definition", "add_port"), ("Definition", "creat
          ("Port", "create_pins"), ("Definition", "create_child")}
 
 
-def step_jobs(prop, tier, want, listeners=("none",), only_with_refusal=False):
+def step_jobs(prop, tier, want, listeners=("none",), only_with_refusal=False, validation=True):
     import os
     out = []
     tmo = 180 if tier == "quick" else 900
     seed = int(os.environ.get("VERIF_SEED", "0") or 0)
-    out.append(dict(name="%s/translator-validation" % prop, engine="E1/symheap", module="vf.e1.jobs",
+    if validation:
+      out.append(dict(name="%s/translator-validation" % prop, engine="E1/symheap", module="vf.e1.jobs",
                     func="validation_job", timeout=400,
                     args=dict(prop=prop, seed=seed, trials=150 if tier == "quick" else 1500,
                               budget_s=40 if tier == "quick" else 300)))
